@@ -22,7 +22,8 @@ def n(tier, quick, thorough):
 
 def c01(tier, seed):
     w = n(tier, 150, 2000)
-    runs = [dict(cfg=c, traces=w, drain=True, notime=True, preds=C01_PREDS) for c in ("p11", "pnat", "pnatc", "p21n", "prst", "p22")]
+    # frozen clock => acceptance waits must be zero, or a controlling agent never nominates a srflx/prflx remote
+    runs = [dict(cfg=c, traces=w, drain=True, notime=True, zerowait=True, preds=C01_PREDS) for c in ("p11", "pnat", "pnatc", "p21n", "prst", "p22")]
     runs[0]["scheds"] = ["c01_triggered_check_after_budget"]
     runs.append(dict(cfg="poneway", traces=n(tier, 60, 500), drain=True, notime=True, preds=C01_PREDS))
     runs.append(dict(cfg="prole", traces=n(tier, 60, 500), drain=True, notime=True, preds=C01_PREDS))
@@ -70,6 +71,9 @@ def c05(tier, seed):
     runs = [dict(cfg=c, traces=w, drain=True, notime=True, preds=C05_PREDS + ["C05_OppositeAtEnd", "C01_Mirror", "C01_Converges"])
             for c in ("prole", "prole0")]
     runs.append(dict(cfg="proleeq", traces=w, drain=True, notime=True, preds=C05_PREDS))
+    runs.append(dict(cfg="proleeq0", traces=w, drain=True, notime=True, preds=C05_PREDS))
+    for c in ("prolenat", "prolenat0"):   # the conflicting check arrives from a not yet signalled (peer-reflexive) source
+        runs.append(dict(cfg=c, traces=w, drain=True, notime=True, zerowait=True, preds=C05_PREDS + ["C05_OppositeAtEnd", "C01_Mirror", "C01_Converges"]))
     plan = {"runs": runs, "mc": [("prole", ["Mirror"], None), ("prole0", ["Mirror"], None)], "assumptions": SESSION_ASSUME}
     return session.run_property("C05", tier, seed, plan)
 
@@ -91,11 +95,13 @@ C20_PREDS = ["C20_AcceptMonotone", "C20_StaleIgnored", "C20_SwitchOnValid", "C20
 def c20(tier, seed):
     w = n(tier, 250, 4000)
     runs = [dict(cfg="p21", traces=w, drain=True, notime=True, zerowait=True, preds=C20_PREDS,
-                 scheds=["fc20a_deferred_ignores_value", "fc20b_responses_reversed", "fc20b_stale_request_answered"]),
+                 scheds=["fc20a_deferred_ignores_value", "fc20b_responses_reversed", "fc20b_stale_request_answered", "fc20c_plain_after_valued_tlc"]),
             dict(cfg="p21big", traces=n(tier, 100, 1000), drain=True, notime=True, zerowait=True, preds=C20_PREDS),
             dict(cfg="p21", traces=n(tier, 100, 1000), preds=C20_PREDS),
+            dict(cfg="p21step", traces=n(tier, 100, 1000), drain=True, notime=True, zerowait=True, preds=C20_PREDS),
             dict(cfg="p21n", traces=n(tier, 60, 500), preds=["C20_OnlyControllingEnabled"])]
-    plan = {"runs": runs, "mc": [("p21", ["SelListed", "NoDupPairs"], None)], "assumptions": SESSION_ASSUME + [
+    plan = {"runs": runs, "mc": [("p21", ["SelListed", "NoDupPairs", "RenomAgree"], n(tier, None, {"MaxRenom": 2}))], "mc_timeout": n(tier, 600, 3000),
+            "assumptions": SESSION_ASSUME + [
         "quiescent agreement is judged on loss-free traces after the fair suffix, with a frozen clock"]}
     return session.run_property("C20", tier, seed, plan)
 
